@@ -2,6 +2,8 @@ CONSTANTS
   Depth = 5
   EmitZero = TRUE
   DescUnits = {"Bytes", "CountPerSecond", "Percent"}
+  HistVals = {"v100"}
+  HistCounts = {1}
 SPECIFICATION Spec
 INVARIANT Emit
 INVARIANT UnitInv
